@@ -74,7 +74,7 @@ def correspondence(ck, binpath, n):
     if rc != 0:
         ck.tie_broken("harness c03 corr failed", err[-2000:])
         return
-    recs = [json.loads(l) for l in out.splitlines() if l.strip()]
+    recs = [json.loads(l) for l in jlines(out) if l.strip()]
     progs = [r for r in recs if r["k"] == "prog"]
     muts = [r for r in recs if r["k"] == "mut"]
     lexs = [r for r in recs if r["k"] == "lex"]
@@ -134,7 +134,7 @@ def search(ck, binpath, n):
     if rc != 0:
         ck.tie_broken("harness c03 search failed", err[-2000:])
         return
-    for l in out.splitlines():
+    for l in jlines(out):
         if not l.strip():
             continue
         v = json.loads(l)
@@ -157,7 +157,7 @@ def replay(ck, binpath, path):
         c = v["case"]
         rc, out, err = ck.run_bin(binpath, ["one", "--level", c.get("level", "5.4"), "--text-json", json.dumps(c.get("text", ""))], timeout=600)
         try:
-            r = json.loads(out.splitlines()[-1])
+            r = json.loads(jlines(out)[-1])
         except Exception:
             continue
         bad = r["parser_errs"] + r["lex_feature_errs"] + r["lex_other_errs"] > 0 or any("panic" not in d for d in r["syntax_diags"])
